@@ -8,6 +8,7 @@ import (
 	"sync/atomic"
 	"testing"
 
+	"github.com/opsidian/parsley/ast/interpreter"
 	"github.com/opsidian/parsley/combinator"
 	"github.com/opsidian/parsley/data"
 	"github.com/opsidian/parsley/examples/json/json"
@@ -27,6 +28,7 @@ type C14Case struct {
 	Construct bool       `json:"construct"`
 	Procs     int        `json:"procs"`
 	Keywords  [][]string `json:"keywords,omitempty"` // per goroutine: registered in every context of that goroutine
+	Toks      *C10Case   `json:"toks,omitempty"`     // grammar "toks": a trimmed token sequence (all four modes, left and right) shared by the goroutines
 	Pattern   int        `json:"pattern"`            // makes the regular expressions of the "lits" grammar and of concurrently constructed terminals fresh in this process
 }
 
@@ -39,18 +41,30 @@ func (c *C14Case) Describe() string {
 }
 
 func genC14(t *rapid.T) interface{} {
-	c := &C14Case{Grammar: rapid.SampledFrom([]string{"arith", "arith", "json", "json", "lr", "lits", "generated", "idents", "idents"}).Draw(t, "grammar")}
+	c := &C14Case{Grammar: rapid.SampledFrom([]string{"arith", "arith", "json", "json", "lr", "lits", "generated", "idents", "idents", "toks", "toks"}).Draw(t, "grammar")}
 	c.Procs = rapid.SampledFrom([]int{2, 4, 16}).Draw(t, "procs")
 	c.Construct = rapid.Bool().Draw(t, "construct")
 	c.Pattern = rapid.IntRange(0, 1<<30).Draw(t, "pattern")
 	var o GenOpts
 	if c.Grammar == "generated" {
-		o = GenOpts{MaxNT: 3, MaxDepth: 3, Alphabet: "ab", NonMono: true, MaxInput: 6, Skeleton: true, Names: true}
+		o = GenOpts{MaxNT: 3, MaxDepth: 3, Alphabet: "ab", NonMono: true, MaxInput: 6, Skeleton: true, Names: true, SeqOpts: true}
 		c.G = GenGrammar(t, o)
+	}
+	if c.Grammar == "toks" {
+		c.Toks = genC10(t).(*C10Case)
+		c.Toks.Pre, c.Toks.Named = 0, false
 	}
 	input := func() string {
 		var in string
 		switch c.Grammar {
+		case "toks":
+			// the same tokens with whitespace of its own in every gap: some runs satisfy the modes,
+			// some violate them
+			v := &C10Case{Toks: c.Toks.Toks}
+			for range c.Toks.Gaps {
+				v.Gaps = append(v.Gaps, rapid.SampledFrom([]string{"", "", " ", "\n", " \n", "  ", "\t"}).Draw(t, "tokgap"))
+			}
+			return v.source()
 		case "arith":
 			in = genExpr(t, rapid.IntRange(0, 3).Draw(t, "d"))
 		case "json":
@@ -123,10 +137,17 @@ func c14Parser(c *C14Case) parsley.Parser {
 		return combinator.Sentence(text.Trim(json.NewParser()))
 	case "lr":
 		var p parser.Func
-		p = combinator.Memoize(combinator.Any(combinator.SeqOf(&p, terminal.Rune('b')).Bind(concatInterp(true)), terminal.Rune('a')))
+		// (the result handler object of ReturnSingle() belongs to the grammar: every run goes through it)
+		p = combinator.Memoize(combinator.Any(combinator.SeqOf(&p, terminal.Rune('b')).HandleResult(combinator.ReturnSingle()).Bind(concatInterp(true)), terminal.Rune('a')))
 		return combinator.Sentence(&p)
+	case "toks":
+		parsers := make([]parsley.Parser, len(c.Toks.Toks))
+		for i, ts := range c.Toks.Toks {
+			parsers[i] = tokParser(ts)
+		}
+		return combinator.Sentence(combinator.SeqOf(parsers...).Bind(interpreter.Nil()))
 	case "idents":
-		return combinator.Sentence(combinator.Many(text.Trim(identParser())).Bind(concatInterpAny()))
+		return combinator.Sentence(combinator.Many(text.Trim(identParser())).HandleResult(combinator.ReturnSingle()).Bind(concatInterpAny()))
 	case "lits":
 		lit := combinator.Choice(terminal.Float("f"), terminal.Integer("i"), terminal.String("s", true), terminal.Char("c"),
 			terminal.TimeDuration("d"), terminal.Bool("b", "true", "false"), terminal.Nil("n", "nil"), terminal.Word("w", "foo", 1), terminal.Op("=="),
@@ -238,6 +259,9 @@ func checkC14(ci interface{}, st *Stats) error {
 	c := ci.(*C14Case)
 	if len(c.Jobs) < 1 {
 		return Discard{"no jobs"}
+	}
+	if c.Grammar == "toks" && (c.Toks == nil || len(c.Toks.Toks) == 0) {
+		return Discard{"no token sequence"}
 	}
 	if c.Grammar == "generated" {
 		if c.G == nil {
